@@ -286,7 +286,7 @@ SPACES = {"DimArray": Space("DimArray"), "Dataset": Space("Dataset"), "Axis": Sp
 
 def bfs(tier, ctx):
     for name in sorted(SPACES):
-        ctx.bfs(name, bounds(tier)["routing_depth"], time_cap=40 if tier == "quick" else 900)
+        ctx.bfs(name, bounds(tier)["routing_depth"], time_cap=300 if tier == "quick" else 900)
 
 
 # ------------------------------------------------------------------------------------------
